@@ -247,7 +247,7 @@ fn most_popular_color(num_colors: usize, png: &PngImage) -> (usize, u32) {
 fn apply_most_popular_color(png: &PngImage, remapping: &mut [usize]) {
     let most_popular = most_popular_color(remapping.len(), png);
     // If the most popular color is less than 15% of the image, don't use it
-    if most_popular.1 < png.data.len() as u32 * 3 / 20 {
+    if (most_popular.1 as usize) < png.data.len() * 3 / 20 {
         return;
     }
     let first_idx = remapping.iter().position(|&i| i == most_popular.0).unwrap();
